@@ -7,8 +7,8 @@
 EXTENDS MacroProg, Json
 CONSTANTS Family, Tier
 
-VARIABLES job
-vars == <<job>>
+VARIABLES job, res
+vars == <<job, res>>
 
 Q == Tier = "quick"
 J(tag, files, bins) == [tag |-> tag, files |-> files, bins |-> bins]
@@ -61,9 +61,9 @@ Jobs ==
     [] Family = "nest2q" ->
          {J(<<"nest2q">>, p, NoBins) : p \in NestPrograms(2, {0, 2}, [npre |-> 1, npost |-> 1, rich |-> FALSE])}
     [] Family = "nest2" ->
-         {J(<<"nest2">>, p, NoBins) : p \in NestPrograms(2, {0, 1, 3}, [npre |-> 1, npost |-> 1, rich |-> TRUE])}
+         {J(<<"nest2">>, p, NoBins) : p \in NestPrograms(2, {0, 2}, [npre |-> 1, npost |-> 1, rich |-> TRUE])}
     [] OTHER ->  \* "nest3"
-         {J(<<"nest3">>, p, NoBins) : p \in NestPrograms(3, {0, 2}, [npre |-> 1, npost |-> 1, rich |-> FALSE])}
+         {J(<<"nest3">>, p, NoBins) : p \in NestPrograms(3, {2}, [npre |-> 0, npost |-> 1, rich |-> FALSE])}
 
 Compute(j) ==
   LET M == RunMachine(j.files, j.bins, "a.asm")
@@ -71,9 +71,10 @@ Compute(j) ==
   IN [tag |-> j.tag, p |-> j.files, bins |-> j.bins, e |-> D.flat, indef |-> D.indef, m |-> MachineFlat(M),
       devs |-> M.devs, errs |-> M.errs, same |-> (MachineFlat(M) = D.flat)]
 
-Init == job \in Jobs
-Next == FALSE /\ UNCHANGED vars
-Dump == PrintT(<<"OUT", ToJson(Compute(job))>>)
+\* the runs are made in the only step of a behaviour (so that all TLC workers share the jobs)
+Init == job \in Jobs /\ res = <<>>
+Next == res = <<>> /\ res' = Compute(job) /\ UNCHANGED job
+Dump == res # <<>> => PrintT(<<"OUT", ToJson(res)>>)
 \* the specification's own claim on every generated program (same as MacroProc_MC, on bigger programs)
-Agrees == LET c == Compute(job) IN (~c.indef /\ c.devs = {}) => (c.same /\ c.errs = 0)
+Agrees == res # <<>> => ((~res.indef /\ res.devs = {}) => (res.same /\ res.errs = 0))
 =============================================================================
